@@ -162,7 +162,7 @@ static void hbegin(const char* callee, void* inst) {
 static void hend(void) { hostlen += (size_t)sprintf(hostlog + hostlen, "]}"); }
 static wasmMemory* mems[16]; static int nmems;
 static wasmTable tables[16]; static int ntables;
-static U64 gcells[32]; static int ngcells;
+static U64 gcells[64]; static int ngcells;
 static void dumpMem(wasmMemory* m) {
   U32 a, n = m->pages * 65536u; int first = 1;
   fprintf(out, "{\"pages\":%u,\"nz\":[", m->pages);
@@ -237,7 +237,7 @@ def gen_harness(items, prefix):
                 gi += 1
         o.append("  return NULL; }")
         o.append("static void run_%s(void) {" % mod)
-        o.append("  static %sInstance I[8]; int ni = 0; (void)ni; nmems = 0; ntables = 0; ngcells = 0; ninsts = 0;" % mod)
+        o.append("  static %sInstance I[8]; int ni = 0; (void)ni; nmems = 0; ntables = 0; ngcells = 0; ninsts = 0; memset(tables, 0, sizeof tables); memset(mems, 0, sizeof mems);" % mod)
         exports = {e["name"]: e for e in m.get("exports", [])}
         memexp = [e["name"] for e in m.get("exports", []) if e["kind"] == "memory"]
         for k, op in enumerate(it["script"], start=1):
@@ -269,6 +269,8 @@ def gen_harness(items, prefix):
                         o.append("  mems[nmems++] = NULL;")
                 if m.get("table") and m["table"].get("present", True):
                     o.append("  ntables++; /* defined table: not observable from outside */")
+                if m.get("globals"):
+                    o.append("  ngcells += %d; /* defined globals occupy store addresses too */" % len(m["globals"]))
                 o.append("  ni++;")
             elif op["op"] == "call":
                 e = exports[op["export"]]
